@@ -4,37 +4,57 @@
 (* application was handed.  ConnSys is shown to implement this (PROPERTY     *)
 (* ChannelSpec in the model-checking configurations), and traces of the real *)
 (* code are judged against the same predicates by ChannelTrace.             *)
+(*                                                                           *)
+(* Sessions: an application may reset() a closed connection and use the      *)
+(* same object again.  `bnd[e]` records where e's histories were cut by its  *)
+(* resets.  Across sessions the promise is: what one session of the          *)
+(* receiver is handed is a prefix of what *one* session of the sender        *)
+(* submitted.  (This needs tokens: ConnSys establishes it for 0.7 and for    *)
+(* 0.6 with the DDNet token; for vanilla 0.6 TLC finds a counterexample      *)
+(* with a datagram of the old session -- nothing is promised there.)         *)
 EXTENDS Integers, Sequences, FiniteSets, SequencesExt
 
 VARIABLES sub,       \* sub[e]: ids of the vital chunks e's application submitted (accepted sends), in order
           snv, scl,  \* ids of the non-vital chunks / connless payloads e's application sent
           del,       \* del[e]: events e's application was handed, in order
-          ready,     \* how often the connecting application was told "ready"
-          answered   \* the accepting side has answered the connect request
-chvars == <<sub, snv, scl, del, ready, answered>>
+          ready,     \* how often the connecting application was told "ready" in its current session
+          answered,  \* the accepting side has answered a connect request
+          bnd        \* bnd[e]: [s, d] = lengths of sub[e] and del[e] at each reset() of e
+chvars == <<sub, snv, scl, del, ready, answered, bnd>>
 
 CE == {"c", "s"}
 CPeer(e) == IF e = "c" THEN "s" ELSE "c"
 ChChunkEvs(s) == SelectSeq(s, LAMBDA ev : ev.e = "chunk")
 ChVitalIds(s) == LET v == SelectSeq(ChChunkEvs(s), LAMBDA ev : ev.v) IN [j \in 1..Len(v) |-> v[j].id]
 
-\* vital chunks: a prefix of what was submitted -- nothing skipped, duplicated, reordered or altered (altered content has id -1)
-Prefix(sb, dl) == \A e \in CE : IsPrefix(ChVitalIds(dl[CPeer(e)]), sb[e])
+\* session i of e's application: the slice of its histories between its (i-1)-th and i-th reset
+NSess(bd, e) == Len(bd[e]) + 1
+SubCuts(sb, bd, e) == <<0>> \o [j \in 1..Len(bd[e]) |-> bd[e][j].s] \o <<Len(sb[e])>>
+DelCuts(dl, bd, e) == <<0>> \o [j \in 1..Len(bd[e]) |-> bd[e][j].d] \o <<Len(dl[e])>>
+SubOf(sb, bd, e, i) == SubSeq(sb[e], SubCuts(sb, bd, e)[i] + 1, SubCuts(sb, bd, e)[i + 1])
+DelOf(dl, bd, e, i) == SubSeq(dl[e], DelCuts(dl, bd, e)[i] + 1, DelCuts(dl, bd, e)[i + 1])
+
+\* vital chunks: a prefix of what was submitted -- nothing skipped, duplicated, reordered or altered (altered content has id -1);
+\* per session of the receiver, with respect to one session of the sender
+Prefix(sb, dl, bd) == \A e \in CE : \A j \in 1..NSess(bd, CPeer(e)) : \E i \in 1..NSess(bd, e) :
+                         IsPrefix(ChVitalIds(DelOf(dl, bd, CPeer(e), j)), SubOf(sb, bd, e, i))
 \* non-vital chunks and connless payloads that are delivered were really sent
 Genuine(nv, cl, dl) == \A e \in CE : \A j \in 1..Len(dl[CPeer(e)]) :
                           LET ev == dl[CPeer(e)][j] IN
                           /\ (ev.e = "chunk" /\ ~ev.v) => ev.id \in nv[e]
                           /\ ev.e = "connless" => ev.id \in cl[e]
 ReadyOnce(r, a) == r <= 1 /\ (r = 1 => a)
-Good(sb, nv, cl, dl, r, a) == Prefix(sb, dl) /\ Genuine(nv, cl, dl) /\ ReadyOnce(r, a)
+Good(sb, nv, cl, dl, r, a, bd) == Prefix(sb, dl, bd) /\ Genuine(nv, cl, dl) /\ ReadyOnce(r, a)
+\* everything submitted in the current sessions has been handed over
+AllDelivered(sb, dl, bd) == \A e \in CE : ChVitalIds(DelOf(dl, bd, CPeer(e), NSess(bd, CPeer(e)))) = SubOf(sb, bd, e, NSess(bd, e))
 
 ChInit == /\ sub = [e \in CE |-> <<>>] /\ snv = [e \in CE |-> {}] /\ scl = [e \in CE |-> {}]
-          /\ del = [e \in CE |-> <<>>]
+          /\ del = [e \in CE |-> <<>>] /\ bnd = [e \in CE |-> <<>>]
           /\ (ready = 0 \/ (ready = 1 /\ answered))
-\* histories only grow, and stay good
-ChStep == /\ \A e \in CE : /\ IsPrefix(sub[e], sub'[e]) /\ IsPrefix(del[e], del'[e])
+\* histories only grow (a reset of the connecting side starts its count of "ready" afresh), and stay good
+ChStep == /\ \A e \in CE : /\ IsPrefix(sub[e], sub'[e]) /\ IsPrefix(del[e], del'[e]) /\ IsPrefix(bnd[e], bnd'[e])
                             /\ snv[e] \subseteq snv'[e] /\ scl[e] \subseteq scl'[e]
-          /\ ready <= ready' /\ (answered => answered')
-          /\ Good(sub', snv', scl', del', ready', answered')
+          /\ (ready <= ready' \/ bnd'["c"] # bnd["c"]) /\ (answered => answered')
+          /\ Good(sub', snv', scl', del', ready', answered', bnd')
 ChannelSpec == ChInit /\ [][ChStep]_chvars
 =============================================================================
